@@ -1,10 +1,13 @@
 import Mp4ff.Model.Init
+import Mp4ff.Lemmas.C19
 /-!
 # C19 — init segments built through the API are consistent and self-describing
-(Further property theorems are added from `Mp4ff/Lemmas/C19.lean` when completed.)
+Property theorems about `Model/Init.lean` (CreateEmptyInit / AddEmptyTrack / MoovBox.AddChild / SetLanguage /
+CreateHdlr / the encoded byte image); proofs in `Mp4ff/Lemmas/C19.lean`.  The model is tied to the Go code by the
+whole-encoding correspondence (every byte of `InitSegment.Encode` for every generated history).
 -/
 namespace Mp4ff.Init.C19
-open Mp4ff.Init
+open Mp4ff.Init Mp4ff.BoxTree
 
 /-- ISO/IEC 14496-12 pairing of handler type and media header box -/
 def pairs (h mh : String) : Bool :=
@@ -14,6 +17,46 @@ def pairs (h mh : String) : Bool :=
 /-- **handler and media header match the media type** for every media type of the quantifier -/
 theorem handler_matches_media_header :
     ∀ m ∈ ["video", "audio", "subtitle", "text", "wvtt", "meta"], pairs (hdlrOf m).1 (mediaHeaderOf m) = true := by
+  decide
+
+/-- **ids 1..n, one trex per track with the same id, next id = n + 1 above all of them, ids unique, each trak keeps
+    the parameters supplied**, for every history of AddEmptyTrack calls -/
+theorem build_ids (specs : List TrackSpec) :
+    (build specs).traks.map (·.id) = List.range' 1 specs.length ∧
+    (build specs).trexs = List.range' 1 specs.length ∧
+    (build specs).traks.map (·.spec) = specs ∧
+    (build specs).next = (if specs = [] then 2 else specs.length + 1) ∧
+    (∀ t ∈ (build specs).traks, 1 ≤ t.id ∧ t.id < (build specs).next) ∧
+    ((build specs).traks.map (·.id)).Nodup := Init.build_ids specs
+
+/-- **moov children: mvhd, mvex, then the traks in id order** (adjacent), for every history -/
+theorem build_children (specs : List TrackSpec) :
+    (build specs).children = [Child.mvhd, Child.mvex] ++ (build specs).traks.map Child.trak :=
+  Init.build_children specs
+
+/-- **`MoovBox.AddChild` keeps the traks adjacent and in insertion order** for every child list whose first child is
+    not a trak, and every sequence of added children (traks or other boxes, in any order) -/
+theorem moovAddChildren_adjacent (cs : List Child) (add : List Child) (h : Adjacent cs) :
+    Adjacent (add.foldl moovAddChild cs) ∧
+    childTraks (add.foldl moovAddChild cs) = childTraks cs ++ childTraks add :=
+  Init.moovAddChildren_adjacent cs add h
+
+/-- the precondition "the first child is not a trak" is needed: the index-0 test in `MoovBox.AddChild` treats a trak
+    at index 0 as "no trak yet" (not reachable through CreateEmptyInit, which puts mvhd first) -/
+example : moovAddChild [.trak ⟨1, ⟨1, "video", "und", 0, 0, []⟩⟩, .other "udta"] (.trak ⟨2, ⟨1, "video", "und", 0, 0, []⟩⟩) =
+    [.trak ⟨1, ⟨1, "video", "und", 0, 0, []⟩⟩, .other "udta", .trak ⟨2, ⟨1, "video", "und", 0, 0, []⟩⟩] := by decide
+
+/-- **three-letter codes survive the 15-bit mdhd packing** -/
+theorem lang_roundtrip (a b c : Nat) (ha : 97 ≤ a ∧ a ≤ 122) (hb : 97 ≤ b ∧ b ≤ 122) (hc : 97 ≤ c ∧ c ≤ 122) :
+    unpackLang (packLang [a, b, c]) = [a, b, c] ∧ packLang [a, b, c] < 2 ^ 15 := Init.lang_roundtrip a b c ha hb hc
+
+/-- every box of the encoded init is well-formed, so the C02 size theorems (`Size() = bytes written = header field`
+    at every level) apply to the whole init segment -/
+theorem init_tree_wf (st : St) (h : ∀ c ∈ st.children, ∀ ty, c = Child.other ty → (str ty).length = 4) :
+    ftyp.WF ∧ (node "moov" (st.children.map (childTree st))).WF := Init.init_tree_wf st h
+
+/-- non-vacuity: a three-track history -/
+example : (build [⟨90000, "video", "und", 0, 0, []⟩, ⟨48000, "audio", "en-US", 0, 0, []⟩, ⟨1000, "wvtt", "swe", 0, 0, []⟩]).next = 4 := by
   decide
 
 end Mp4ff.Init.C19
